@@ -235,7 +235,9 @@ static void gridCase(Lock &L, Prng &r, unsigned byte, bool viaArch) {
     L.poke(1, sp);
     static const uint32_t S[] = {0, 1, 255, 256, 257, 511, 512, 2047, 2048, 0x7FFFFFFF, 0x80000000u, 0xFFFFFFFFu, 0xFFFFFF00u};
     uint32_t stream = S[r.below(6)];             // console + low files in grid mode
-    if (sp + 3 < MEM_WORDS && sp + 1 != 1 && sp + 2 != 1 && sp + 3 != 1) {
+    // slot indices wrap in 32 bits: every slot that is written must itself be inside memory
+    if ((uint32_t)(sp + 1) < MEM_WORDS && (uint32_t)(sp + 2) < MEM_WORDS && (uint32_t)(sp + 3) < MEM_WORDS &&
+        sp + 1 != 1 && sp + 2 != 1 && sp + 3 != 1) {
       if (a == 1) { L.poke(sp + 2, r.u32()); L.poke(sp + 3, stream < 256 || (int32_t)stream < 0 ? stream : S[r.below(3)]); }
       else if (a == 2) { L.poke(sp + 2, S[r.below(3)]); }
       else L.poke(sp + 2, pickVal(r));
@@ -284,7 +286,7 @@ static void gridCase(Lock &L, Prng &r, unsigned byte, bool viaArch) {
 
 // ---------------------------------------------------------------- sequences
 static void seqCase(Lock &L, Prng &r) {
-  uint32_t base = (uint32_t)r.below(MEM_WORDS * 4 - 4096);
+  uint32_t base = (uint32_t)r.below(MEM_WORDS * 4 - 8192 - 128);   // the whole generated window lies inside memory
   uint32_t pc = base + 64 + (uint32_t)r.below(8);
   L.setRegs(pc, pickVal(r), pickVal(r), 0);
   uint32_t sp = 1000 + (uint32_t)r.below(190000);
@@ -305,7 +307,7 @@ static void seqCase(Lock &L, Prng &r) {
     if (cur < base || cur >= base + 8192) {
       if (r.below(4) != 0) break;       // mostly stay inside the generated window
     }
-    if (cur >= base && cur < base + 8192 && !gen[cur - base]) {
+    if (cur >= base && cur < base + 8192 && cur < MEM_WORDS * 4 && !gen[cur - base]) {
       // choose a byte that is defined and in range from the current state
       bool found = false;
       for (int t = 0; t < 12 && !found; t++) {
@@ -377,6 +379,7 @@ static void sysCase(Stats &st, Prng &r, const std::string &ctx) {
     uint32_t num = (uint32_t)r.below(3);
     if (num == 0 && k != len - 1) num = 1 + (uint32_t)r.below(2);
     uint32_t sp = 100 + (uint32_t)r.below(199000);
+    if (sp + 4 >= 1000 && sp <= 1010) sp += 64;      // keep the argument slots away from the words holding the SVC bytes (pc 4000..4031)
     L.poke(1, sp);
     uint32_t stream = S[r.below(sizeof(S) / sizeof(S[0]))];
     if (r.below(3) == 0) stream = (uint32_t)r.below(4096);
@@ -391,6 +394,8 @@ static void sysCase(Stats &st, Prng &r, const std::string &ctx) {
     else L.poke(sp + 2, pickVal(r));
     L.pokeByte(pc, 0xD3);
     L.setRegs(pc, num, r.u32(), 0);
+    if (getenv("H_ISA_DEBUG"))
+      fprintf(stderr, "%s: call %d num=%u stream=%d (0x%x) sp=%u arg=%u\n", ctx.c_str(), k, num, (int)stream, stream, sp, L.ref.mem[sp + 2]);
     if (!L.step()) ended = true;
     pc++;
   }
